@@ -20,8 +20,10 @@ import (
 //	        (events (<kind> <objid> <count-after>) ...))
 //
 // ocaml/ownersrun.ml evaluates the model's run_events on the operation list
-// that coq/OwnersScenarios.v gives for <name> and compares event by event,
-// modulo a renaming of object ids.  Each step below corresponds to exactly
+// that coq/OwnersScenarios.v gives for <name> (xrun_events and
+// coq/OwnersRevertScenarios.v for the scenarios with SnapshotRevert and
+// Store.OpenCollection) and compares event by event, modulo a renaming of
+// object ids.  Each step below corresponds to exactly
 // one operation of the model (named in the comment of its constructor).
 
 type ostep struct {
@@ -241,6 +243,45 @@ func ownersScenarios(seed uint64) []oscn {
 			ocycle(),
 			[]ostep{sIter(0, false, ""), sK("snap"), sK("collclose"), sH("seek", 1), sH("close", 0), sH("close", 1),
 				sH("close", 0), sK("storeclose")})},
+		// ---- the extended model (coq/OwnersRevert.v): XPrev, XRevert, XOpenColl ----
+		// 13: two appended rounds, collection closed, Store.Snapshot, SnapshotPrevious, SnapshotRevert to the
+		// previous snapshot which STAYS OPEN, Store.OpenCollection, one more round, a store snapshot and
+		// its previous one (the footer that the revert wrote), closes
+		{"revert_previous_held", disable, ocat(
+			oround(sBatchTop(seed, 1)), oround(sBatchTop(seed, 2)),
+			[]ostep{sK("collclose"), sK("storesnap"), sH("prev", 0), sH("revert", 1), sK("opencoll")},
+			oround(sBatchTop(seed, 3)),
+			[]ostep{sK("storesnap"), sH("prev", 2),
+				sH("close", 1), sH("close", 0), sH("close", 1), sH("close", 0)}, closeAll)},
+		// 14: the same with a child collection: the previous snapshot's child snapshot is held too, a revert
+		// to that CHILD snapshot is refused, the revert builds new child footers, OpenCollection restores the
+		// child collection, a round writes both, collection snapshot / child snapshot / iterator; the
+		// previous snapshot is closed while its child snapshot and the new footers are still in use
+		{"revert_child_previous_held", disable, ocat(
+			oround(sBatchBoth(seed, 1)), oround(sBatchBoth(seed, 2)),
+			[]ostep{sK("collclose"), sK("storesnap"), sH("prev", 0), sH("childsnap", 1), sH("revert", 2),
+				sH("revert", 1), sK("opencoll")},
+			oround(sBatchBoth(seed, 3)),
+			[]ostep{sK("snap"), sH("childsnap", 3), sIter(4, false, ""),
+				sH("close", 1), sH("close", 0), sH("close", 1), sH("close", 2), sH("close", 1), sH("close", 0)},
+			closeAll)},
+		// 15: the previous snapshot is closed right after the revert, BEFORE the continuation: the new
+		// footer alone keeps the shared mappings alive through two more rounds
+		{"revert_previous_closed_first", disable, ocat(
+			oround(sBatchTop(seed, 1)), oround(sBatchTop(seed, 2)),
+			[]ostep{sK("collclose"), sK("storesnap"), sH("prev", 0), sH("close", 0), sH("revert", 0), sH("close", 0),
+				sK("opencoll")},
+			oround(sBatchTop(seed, 3)), oround(sBatchTop(seed, 4)),
+			[]ostep{sK("snap"), sIter(0, false, ""), sH("close", 0), sH("close", 0)}, closeAll)},
+		// 16: all data in the child collection (the file is reached through the child footers: repair
+		// 8f6c423): previous, revert, OpenCollection, a round, previous of the new state, the collection
+		// closed and a second revert, to the CURRENT snapshot
+		{"revert_child_only", disable, ocat(
+			oround(sBatchChild(seed, 1)), oround(sBatchChild(seed, 2)),
+			[]ostep{sK("collclose"), sK("storesnap"), sH("prev", 0), sH("revert", 1), sK("opencoll")},
+			oround(sBatchChild(seed, 3)),
+			[]ostep{sK("storesnap"), sH("prev", 2), sK("collclose"), sH("revert", 2),
+				sH("close", 3), sH("close", 2), sH("close", 1), sH("close", 0), sK("storeclose")})},
 	}
 }
 
@@ -346,6 +387,28 @@ func (or *ownersRun) step(s ostep) error {
 		}
 		or.choices = append(or.choices, L("prev", "found"))
 		or.handles = append(or.handles, &ohandle{snap: ps})
+	case "revert":
+		// XRevert h: Store.SnapshotRevert to an open handle (the collection is closed)
+		if err := h.store.SnapshotRevert(or.handles[s.h].snap); err != nil {
+			or.choices = append(or.choices, L("revert", "refused"))
+			or.note("revert %d: %v", s.h, err)
+			return nil
+		}
+		or.choices = append(or.choices, L("revert", "done"))
+	case "opencoll":
+		// XOpenColl: Store.OpenCollection on the open store, gates on again
+		if h.coll != nil {
+			return fmt.Errorf("opencoll with a collection open")
+		}
+		atomic.StoreInt32(&h.gating, 1)
+		so, po := h.storeOptions()
+		so.CollectionOptions.MergeOperator = &ownersMergeOp{}
+		c, err := h.store.OpenCollection(so, po)
+		if err != nil {
+			return err
+		}
+		h.coll = c
+		return h.quiesce()
 	case "iter":
 		it, err := or.handles[s.h].snap.StartIterator(s.start, nil, moss.IteratorOptions{SkipLowerLevel: s.skipLL})
 		if err != nil {
@@ -429,8 +492,12 @@ func famOwners(w *bufio.Writer, seed uint64, n int) error {
 	defer func() { moss.VerifOnRef = nil }()
 	scns := ownersScenarios(seed)
 	only := os.Getenv("VERIF_OWNERS_ONLY")
+	// A check run splits the family over several director processes of n cases each, with consecutive
+	// seeds: process k runs the k-th block of n scenarios (modulo their number), so that the processes of
+	// one run cover every scenario even when n is smaller than the number of scenarios.
+	off := int(seed%uint64(len(scns))) * n
 	for i := 0; i < n; i++ {
-		sc := scns[i%len(scns)]
+		sc := scns[(off+i)%len(scns)]
 		if only != "" && only != sc.name {
 			continue
 		}
